@@ -740,6 +740,9 @@ func runCase(t testing.TB, run *hx.Run, sc *chainx.Scratch, cs caseSpec, rng *ra
 
 func runCaseWith(t testing.TB, run *hx.Run, sc *chainx.Scratch, cs caseSpec, rng *rand.Rand, fixed []chainx.KV, fixedQ [][][]byte, snapCount int) {
 	w := startCase(t, run, sc, cs)
+	if w == nil {
+		return // set-up refused by the contracts under test: reported through the monitor
+	}
 	g := &gen{rng: rng, w: w}
 	if snapCount > 0 {
 		g.count = snapCount
@@ -805,6 +808,103 @@ func runCaseWith(t testing.TB, run *hx.Run, sc *chainx.Scratch, cs caseSpec, rng
 
 var mainKinds = map[string]bool{"balance": true, "container": true, "netmap": true, "nns": true}
 
+// gateSizes: committee sizes of the directed gate cases: 1, odd, even (where "exactly half" exists), 7
+var gateSizes = []int{1, 3, 4, 6, 7}
+
+// gateCases: the `update` gate on its own. Every contract kind whose Update carries its OWN copy of the gate logic -
+// NNS (checkCommittee), NeoFS and Processing (majority of the designated NeoFS Alphabet) - and the contracts behind
+// common.HasUpdateAccess, from a version inside the gate with the storage as deployed, default data and a valid
+// executable, so that nothing but the witness decides: a stranger, a single member, the account one signature short of
+// the majority (for even n: EXACTLY HALF of the committee), the 2n/3+1 account where it differs, and finally the
+// n/2+1 majority account, which must be the first and only one to get through. `mem=` on the op line is the number of
+// signing members (the model decides by the account `m<mem>.<members>` against n/2+1 of `n=` of the case line).
+// Quick tier: NNS x all sizes, NeoFS / Processing / Proxy x {4, 6}; thorough tier (first shard): every contract x all sizes.
+func gateCases(t testing.TB, run *hx.Run, sc *chainx.Scratch, ci int) int {
+	if common.Version-1 < common.PrevVersion {
+		return ci
+	}
+	type kn struct {
+		kind string
+		n    int
+	}
+	var todo []kn
+	if run.Tier == "thorough" {
+		if run.Shard != 0 {
+			return ci
+		}
+		for _, k := range allKinds {
+			for _, n := range gateSizes {
+				todo = append(todo, kn{k, n})
+			}
+		}
+	} else {
+		for _, n := range gateSizes {
+			todo = append(todo, kn{"nns", n})
+		}
+		for _, k := range []string{"neofs", "processing", "proxy"} {
+			todo = append(todo, kn{k, 4}, kn{k, 6})
+		}
+	}
+	// contracts with their own copy of the gate get a second case in which the majority account comes FIRST (in the
+	// other one a wrongly accepted earlier signer would have updated the contract already)
+	var both []kn
+	for _, x := range todo {
+		both = append(both, x)
+		if x.kind == "nns" || x.kind == "neofs" || x.kind == "processing" {
+			both = append(both, kn{x.kind, -x.n})
+		}
+	}
+	for _, x := range both {
+		ci++
+		n, majOnly := x.n, false
+		if n < 0 {
+			n, majOnly = -n, true
+		}
+		cs := caseSpec{id: fmt.Sprintf("gate.%s.n%d", x.kind, n), kind: x.kind, n: n, v: common.Version - 1, wf: true, gate: true}
+		if majOnly {
+			cs.id += ".majority"
+		}
+		if x.kind == "neofs" || x.kind == "processing" {
+			cs.role = ids(n) // the designated NeoFS Alphabet = all members: its majority is the n/2+1 account too
+		}
+		if x.kind == "alphabet" {
+			cs.gas, cs.nnsProxy, cs.role = "0", true, ids(n)
+		}
+		w := startCase(t, run, sc, cs)
+		if w == nil {
+			continue
+		}
+		all := ids(n)
+		sigs := []string{"u1", "s0"}
+		if n >= 2 {
+			sigs = append(sigs, msig(n/2, all)) // majority - 1; for even n exactly half
+		}
+		if n*2/3+1 != n/2+1 {
+			sigs = append(sigs, msig(n*2/3+1, all))
+		}
+		sigs = append(sigs, msig(n/2+1, all), msig(n/2+1, all)) // the majority; once more: already updated
+		if majOnly {
+			sigs = []string{msig(n/2+1, all)}
+		}
+		data := "n"
+		if x.kind == "alphabet" {
+			data = "A(f;b-;b-;b617a)"
+		}
+		// the storage as deployed, handed to the model as a raw load of itself
+		line, obs := w.execOp(fmt.Sprintf("op load q=- kv=%s", fmtKVs(w.scan())))
+		run.Op(line, obs)
+		for _, sig := range sigs {
+			mem := 1
+			if sig[0] == 'm' {
+				fmt.Sscanf(sig, "m%d.", &mem)
+			}
+			line, obs := w.execOp(fmt.Sprintf("op update q=- sig=%s mem=%d role=%s data=%s nef=ok h=?", sig, mem, fmtIDs(cs.role), data))
+			run.Op(line, obs)
+		}
+	}
+	return ci
+}
+
 // netmapCountCases: one in-quantifier Netmap case per stored snapshot count, from the oldest supported version (the
 // node structures are converted below 0.16 only), in every tier, shard and seed.
 func netmapCountCases(t testing.TB, run *hx.Run, sc *chainx.Scratch, ci int) int {
@@ -856,6 +956,7 @@ func generate(t testing.TB, run *hx.Run, sc *chainx.Scratch) {
 	if run.Shard == 0 {
 		ci = dumpCases(t, run, sc)
 	}
+	ci = gateCases(t, run, sc, ci)
 	ci = netmapCountCases(t, run, sc, ci)
 	ci = alphabetGasCases(t, run, sc, ci)
 	for _, k := range allKinds {
@@ -876,7 +977,7 @@ func generate(t testing.TB, run *hx.Run, sc *chainx.Scratch) {
 			for rep := 0; rep < reps; rep++ {
 				ci++
 				rng := run.Rand(ci)
-				n := hx.Pick(rng, []int{1, 2, 3, 4, 4, 5, 7})
+				n := hx.Pick(rng, []int{1, 2, 3, 4, 4, 5, 6, 7})
 				if k == "neofs" || k == "processing" {
 					n = hx.Pick(rng, []int{3, 4, 5, 7, 7})
 				}
